@@ -245,6 +245,9 @@ class Body:
                 return ("const", int(v) if isinstance(v, str) else v, k["ty"])
             if "fn" in k:
                 return ("fn", k["fn"]["def"], tuple(k["fn"]["args"]))
+            if "promoted_agg" in k:
+                pa = k["promoted_agg"]
+                return ("ref", ("agg", ("adt", pa["adt"], pa["vname"]), ()))
             if "uneval" in k:
                 return ("uneval", k["uneval"])
             if "rtc" in k:
